@@ -27,6 +27,7 @@ def dispatch (op : String) (j : Json) : Json :=
   | "C08.struct" => C08.struct j
   | "C09.cols" => C09.cols j
   | "HT.run" => HTd.run j
+  | "HT.runx" => HTd.runX j
   | "K.eval" => KD.eval j
   | "K.view" => KD.evalView j
   | "Np.eval" => NpD.eval j
